@@ -288,6 +288,26 @@ CHECKS = {
         design='5 (C15)',
         note='no pack in the histories (points older than the last pack are '
              'excluded by the property)'),
+    'C16': dict(
+        technique='explicit-state exploration of all histories through a real '
+                  'DemoStorage for every base history and layering, battery '
+                  'against one combined list model, base snapshot comparison',
+        text='For 6 base histories (depth 0-2, applied to the base directly) '
+             'and the 4 layerings of MappingStorage / FileStorage as base and '
+             'changes: all histories (depth 4 quick / 5 thorough) over create, '
+             'modify base and changes objects, two-object transactions, stale '
+             'stores with and without a resolver, undo, abort after vote, '
+             'pack, push and pop. After every step the full battery of the '
+             'demo storage is compared with ONE list-of-transactions model of '
+             'both layers (intervals joining the layers, conflict detection '
+             'and resolution against the merged current serial, undo), the '
+             'base\'s battery and files with the snapshot taken before the '
+             'demo storage existed, and new_oid - with the random source '
+             'aimed at ids of both layers - with the ids present.',
+        design='3 (C16)',
+        note='two known findings (undo of the first change to a base object; '
+             'allocator re-issuing an un-created oid); clock monotone across '
+             'layers'),
     'C19': dict(
         technique='explicit-state exploration of the real fsIndex over a '
                   '12-key alphabet, every query compared with a sorted dict',
